@@ -230,26 +230,30 @@ def rule_l1(F):
         r.missing("value::list::ffi::list_get")
     else:
         ok = False
-        ld = hir.LocalDefs(lg.hir)
+        # list_get and the private helpers of its module that it calls (the Some case may be written out in a helper)
+        for fb in hir.with_callees(F, lg, depth=2, same_file=True):
+            if not fb.path.startswith("value::list::ffi::"):
+                continue
+            ld = hir.LocalDefs(fb.hir)
 
-        def depends_on_align(e, depth=0):
-            if depth > 6:
-                return False
-            for n in hir.walk(e):
-                if n.get("k") == "mcall" and n["m"] == "align":
-                    return True
-                if n.get("k") == "path" and hir.res_local(n) is not None:
-                    d = ld.get(hir.res_local(n))
-                    if d and d[1] is not None and d[2] == () and depends_on_align(d[1], depth + 1):
+            def depends_on_align(e, depth=0, ld=ld):
+                if depth > 6:
+                    return False
+                for n in hir.walk(e):
+                    if n.get("k") == "mcall" and n["m"] == "align":
                         return True
-            return False
-        for c in hir.nodes(lg.hir["value"], "mcall"):
-            if c["m"] in ("byte_add", "add", "byte_offset") and c["args"]:
-                a0 = hir.strip(c["args"][0])
-                if a0.get("k") == "lit":
-                    continue
-                if depends_on_align(c["args"][0]):
-                    ok = True
+                    if n.get("k") == "path" and hir.res_local(n) is not None:
+                        d = ld.get(hir.res_local(n))
+                        if d and d[1] is not None and d[2] == () and depends_on_align(d[1], depth + 1):
+                            return True
+                return False
+            for c in hir.nodes(fb.hir["value"], "mcall"):
+                if c["m"] in ("byte_add", "add", "byte_offset") and c["args"]:
+                    a0 = hir.strip(c["args"][0])
+                    if a0.get("k") == "lit":
+                        continue
+                    if depends_on_align(c["args"][0]):
+                        ok = True
         r.inst("list_get payload offset", {"ok": ok})
         if not ok:
             r.bad(lg.path, "payload offset", relfile(lg.file), lg.line, "list_get must write the element at an offset derived from the element alignment (1.next_multiple_of(align)) - the offset every enum walk computes for the first field after the tag; a constant offset is wrong for most element types")
